@@ -268,6 +268,17 @@ Theorem C13_percent_history : forall pagesize r ms kernel0 ops,
 Proof. exact percent_history. Qed.
 Print Assumptions C13_percent_history.
 
+(* the views add up, for every number of mappings (no bound on the size of the listing): with
+   C13_full_info_smaps (any source: listing, roll-up fallback) and C13_maps_ungrouped, uss / pss /
+   swap of memory_full_info() are the column sums of the rows of memory_maps(grouped=False) --
+   private_clean + private_dirty (+ Private_Hugetlb, which the rows do not carry), pss, swap *)
+Theorem C13_full_info_vs_rows : forall ms,
+  spec_sums ms =
+  (rows_col 5 (map spec_row ms) + rows_col 6 (map spec_row ms) + sum_over (fun m => kb m FPrivateHugetlb) ms * 1024,
+   rows_col 2 (map spec_row ms), rows_col 9 (map spec_row ms)).
+Proof. exact full_info_vs_rows. Qed.
+Print Assumptions C13_full_info_vs_rows.
+
 (* the record layouts of the code as it is now (dumped into coq/Gen/C13_Tables.v on every run)
    are the documented ones, and the model and the specification use them: pmem, pfullmem =
    pmem + (uss, pss, swap), pmmap_grouped = path + ten figures, pmmap_ext = addr, perms + that *)
